@@ -104,6 +104,8 @@ def parse(argv: list[str]) -> argparse.Namespace:
     p.add_argument("--run-seed", type=int, default=None, help="execute one run seed verbosely")
     p.add_argument("--index", type=int, default=None, help="execute one run index verbosely")
     p.add_argument("--logs", action="store_true", help="record per-run event-log digests")
+    p.add_argument("--salt", type=int, default=0, help="perturbs the per-chunk worker hash seeds (determinism self-test)")
+    p.add_argument("--chunk", type=int, default=None, help="override chunk size")
     p.add_argument("--no-evidence", action="store_true")
     p.add_argument("--no-shrink", action="store_true")
     p.add_argument("--quiet", action="store_true")
@@ -403,7 +405,7 @@ def driver_main(a: argparse.Namespace) -> int:
     mod = load_check(a.property)
     tier = dict(mod.TIERS[a.tier])
     total = a.runs if a.runs is not None else tier["runs"]
-    chunk = max(1, min(tier["chunk"], total))
+    chunk = max(1, min(a.chunk or tier["chunk"], total))
     budget = a.budget if a.budget is not None else tier["budget_s"]
     workers = a.workers or int(os.environ.get("VERIF_WORKERS", "0")) or min(16, os.cpu_count() or 1)
     soft_deadline = t0 + budget
@@ -421,7 +423,7 @@ def driver_main(a: argparse.Namespace) -> int:
 
     def launch(lo: int, hi: int) -> None:
         nonlocal launched
-        cseed = core.h64("chunk", a.seed, a.property, lo)
+        cseed = core.h64("chunk", a.seed, a.property, lo, a.salt)
         hs = str(cseed % 4294967295)
         out = tmp / f"chunk-{lo}.json"
         envp = dict(os.environ, PYTHONHASHSEED=hs, **SINGLE_THREAD_ENV)
